@@ -831,6 +831,11 @@ class IsoHybrid:
             self.efi_count = 0  # this will be set later
             self.primary_gpt.new(self.mac)
             self.secondary_gpt.new(self.mac)
+            # The backup GPT has to describe the same disk and the same
+            # partitions as the primary one.
+            self.secondary_gpt.header.disk_guid = self.primary_gpt.header.disk_guid
+            for primary_part, secondary_part in zip(self.primary_gpt.parts, self.secondary_gpt.parts):
+                secondary_part.part_guid = primary_part.part_guid
 
         self._initialized = True
 
@@ -986,3 +991,5 @@ class IsoHybrid:
 
         self.primary_gpt.parts[2].first_lba = current_extent * 4
         self.primary_gpt.parts[2].last_lba = (current_extent * 4) + sector_count - 1
+        self.secondary_gpt.parts[2].first_lba = current_extent * 4
+        self.secondary_gpt.parts[2].last_lba = (current_extent * 4) + sector_count - 1
